@@ -27,7 +27,8 @@ const TABLE_REL: &str = "http://schemas.openxmlformats.org/officeDocument/2006/r
 struct Merge {
     r: [u32; 4],
     /// bit 0: two-corner form even for one cell (`B2:B2`); bit 1: lower-case letters;
-    /// bit 2: an unrelated attribute before `ref`; bit 3: whitespace text after the element
+    /// bit 2: an unrelated attribute before `ref`; bit 3: whitespace text after the element;
+    /// bit 4: unrelated attributes after `ref`
     f: u8,
     /// verbatim `ref` text (malformed / reversed references); the oracle is silent for these
     #[serde(default, skip_serializing_if = "Option::is_none")]
@@ -43,6 +44,10 @@ struct SheetSpec {
     /// write an (empty) `<mergeCells>` element even without regions
     #[serde(default)]
     mc_empty: bool,
+    /// `count` attribute of `<mergeCells>`: `None` = the true count, `Some(-1)` = attribute omitted,
+    /// `Some(k)` = the (wrong) number k — the attribute must not influence what is reported
+    #[serde(default, skip_serializing_if = "Option::is_none")]
+    cnt: Option<i64>,
 }
 
 #[derive(Clone, Debug, Serialize, Deserialize, PartialEq)]
@@ -60,6 +65,21 @@ struct TableSpec {
     cols: Vec<String>,
     /// relationship `Target` is the absolute part name `/xl/tables/tableN.xml` (else `../tables/tableN.xml`)
     abs: bool,
+    /// further legal attributes of `<table>` that must not influence name, columns or geometry
+    /// (`totalsRowShown`, `headerRowDxfId`, `published`, `tableType`, `insertRowShift`, …)
+    #[serde(default, skip_serializing_if = "Vec::is_empty")]
+    x: Vec<[String; 2]>,
+    /// the `name` attribute when it differs from `displayName` (the table's name is its `displayName`)
+    #[serde(default, skip_serializing_if = "Option::is_none")]
+    alt: Option<String>,
+    /// non-zero: the attributes of `<table>` (after the namespace declaration) are shuffled with this seed
+    #[serde(default)]
+    ord: u64,
+    /// inert children: bit 0 `sortState`/`filterColumn` inside `autoFilter` (each with a `ref`); bit 1 no
+    /// `autoFilter`; bit 2 `tableColumn` with `uniqueName`/`totalsRowFunction`/… attributes and formula
+    /// children; bit 3 no `tableStyleInfo`; bit 4 an `extLst`; bit 5 whitespace text between the children
+    #[serde(default)]
+    kids: u8,
 }
 
 #[derive(Clone, Debug, Serialize, Deserialize, PartialEq)]
@@ -346,13 +366,22 @@ fn build_xlsx(spec: &XlsxSpec) -> BuiltX {
         }
         let mut evs: Vec<Ev> = vec![];
         if !sh.merges.is_empty() || sh.mc_empty {
-            evs.push(Ev::Start(q(&pre, "mergeCells"), vec![("count".into(), sh.merges.len().to_string())]));
+            let mc_attrs = match sh.cnt {
+                None => vec![("count".to_string(), sh.merges.len().to_string())],
+                Some(k) if k < 0 => vec![],
+                Some(k) => vec![("count".to_string(), k.to_string())],
+            };
+            evs.push(Ev::Start(q(&pre, "mergeCells"), mc_attrs));
             for m in &sh.merges {
                 let mut attrs = vec![];
                 if m.f & 4 != 0 {
                     attrs.push(("xr:uid".to_string(), "{00000000-0001-0000-0000-000000000000}".to_string()));
                 }
                 attrs.push(("ref".to_string(), m.text()));
+                if m.f & 16 != 0 {
+                    attrs.push(("refs".to_string(), "A1".to_string()));
+                    attrs.push(("x:ref".to_string(), "Z9:Z10".to_string()));
+                }
                 evs.push(Ev::Start(q(&pre, "mergeCell"), attrs));
                 evs.push(Ev::End(q(&pre, "mergeCell")));
                 if m.f & 8 != 0 {
@@ -409,7 +438,7 @@ fn build_xlsx(spec: &XlsxSpec) -> BuiltX {
         let mut attrs: Vec<(String, String)> = vec![
             (if pre.is_empty() { "xmlns".to_string() } else { format!("xmlns:{pre}") }, xlsxw::NS_MAIN.to_string()),
             ("id".into(), (k + 1).to_string()),
-            ("name".into(), t.name.clone()),
+            ("name".into(), t.alt.clone().unwrap_or_else(|| t.name.clone())),
             ("displayName".into(), t.name.clone()),
             ("ref".into(), ref_text(t.r, true, false)),
         ];
@@ -422,23 +451,81 @@ fn build_xlsx(spec: &XlsxSpec) -> BuiltX {
         if let Some(n) = t.tot {
             attrs.push(("totalsRowCount".into(), n.to_string()));
         }
-        if cos.chance(1, 4) {
+        for a in &t.x {
+            attrs.push((a[0].clone(), a[1].clone()));
+        }
+        if t.ord != 0 {
             let n = attrs.len();
-            cos.shuffle(&mut attrs[1..n]);
+            Rng::new(t.ord).shuffle(&mut attrs[1..n]);
         }
         let mut evs = vec![Ev::Start(q(&pre, "table"), attrs)];
+        let ws = |evs: &mut Vec<Ev>| {
+            if t.kids & 32 != 0 {
+                evs.push(Ev::Text("\n  ".into()));
+            }
+        };
+        ws(&mut evs);
         // the autoFilter carries its own `ref` (header + data rows), which is not the table's
         let af = [t.r[0], t.r[1], t.r[2].saturating_sub(t.tot.unwrap_or(0)).max(t.r[0]), t.r[3]];
-        evs.push(Ev::Start(q(&pre, "autoFilter"), vec![("ref".into(), ref_text(af, true, false))]));
-        evs.push(Ev::End(q(&pre, "autoFilter")));
+        if t.kids & 2 == 0 {
+            evs.push(Ev::Start(q(&pre, "autoFilter"), vec![("ref".into(), ref_text(af, true, false))]));
+            if t.kids & 1 != 0 {
+                evs.push(Ev::Start(q(&pre, "filterColumn"), vec![("colId".into(), "0".into())]));
+                evs.push(Ev::Start(q(&pre, "filters"), vec![]));
+                evs.push(Ev::Start(q(&pre, "filter"), vec![("val".into(), "table".into())]));
+                evs.push(Ev::End(q(&pre, "filter")));
+                evs.push(Ev::End(q(&pre, "filters")));
+                evs.push(Ev::End(q(&pre, "filterColumn")));
+                let ss = [(af[0] + 1).min(af[2]), af[1], af[2], af[3]];
+                evs.push(Ev::Start(q(&pre, "sortState"), vec![("ref".into(), ref_text(ss, true, false))]));
+                evs.push(Ev::Start(q(&pre, "sortCondition"), vec![("descending".into(), "1".into()), ("ref".into(), ref_text([ss[0], ss[1], ss[2], ss[1]], true, false))]));
+                evs.push(Ev::End(q(&pre, "sortCondition")));
+                evs.push(Ev::End(q(&pre, "sortState")));
+            }
+            evs.push(Ev::End(q(&pre, "autoFilter")));
+            ws(&mut evs);
+        }
         evs.push(Ev::Start(q(&pre, "tableColumns"), vec![("count".into(), t.cols.len().to_string())]));
         for (j, c) in t.cols.iter().enumerate() {
-            evs.push(Ev::Start(q(&pre, "tableColumn"), vec![("id".into(), (j + 1).to_string()), ("name".into(), c.clone())]));
+            let mut ca: Vec<(String, String)> = vec![("id".into(), (j + 1).to_string())];
+            if t.kids & 4 != 0 {
+                ca.push(("uniqueName".into(), format!("u{}", j + 1)));
+            }
+            ca.push(("name".into(), c.clone()));
+            if t.kids & 4 != 0 {
+                ca.push(("totalsRowFunction".into(), "sum".into()));
+                ca.push(("totalsRowLabel".into(), "name".into()));
+                ca.push(("dataDxfId".into(), j.to_string()));
+                ca.push(("queryTableFieldId".into(), (j + 1).to_string()));
+            }
+            evs.push(Ev::Start(q(&pre, "tableColumn"), ca));
+            if t.kids & 4 != 0 {
+                evs.push(Ev::Start(q(&pre, "calculatedColumnFormula"), vec![]));
+                evs.push(Ev::Text("Table1[[#This Row],[name]]*2".into()));
+                evs.push(Ev::End(q(&pre, "calculatedColumnFormula")));
+                evs.push(Ev::Start(q(&pre, "totalsRowFormula"), vec![]));
+                evs.push(Ev::Text("SUM(A1:A2)".into()));
+                evs.push(Ev::End(q(&pre, "totalsRowFormula")));
+            }
             evs.push(Ev::End(q(&pre, "tableColumn")));
+            ws(&mut evs);
         }
         evs.push(Ev::End(q(&pre, "tableColumns")));
-        evs.push(Ev::Start(q(&pre, "tableStyleInfo"), vec![("name".into(), "TableStyleMedium2".into()), ("showRowStripes".into(), "1".into())]));
-        evs.push(Ev::End(q(&pre, "tableStyleInfo")));
+        ws(&mut evs);
+        if t.kids & 8 == 0 {
+            evs.push(Ev::Start(
+                q(&pre, "tableStyleInfo"),
+                vec![("name".into(), "TableStyleMedium2".into()), ("showFirstColumn".into(), "0".into()), ("showRowStripes".into(), "1".into())],
+            ));
+            evs.push(Ev::End(q(&pre, "tableStyleInfo")));
+        }
+        if t.kids & 16 != 0 {
+            evs.push(Ev::Start(q(&pre, "extLst"), vec![]));
+            evs.push(Ev::Start(q(&pre, "ext"), vec![("uri".into(), "{504A1905-F514-4f6f-8877-14C23A59335A}".into()), ("name".into(), "ext".into())]));
+            evs.push(Ev::End(q(&pre, "ext")));
+            evs.push(Ev::End(q(&pre, "extLst")));
+        }
+        ws(&mut evs);
         evs.push(Ev::End(q(&pre, "table")));
         my_parts.push((format!("xl/tables/table{}.xml", k + 1), evs));
     }
@@ -1091,6 +1178,37 @@ fn gen_xlsmc(rng: &mut Rng) -> Vec<u8> {
 const NAMES: [&str; 8] = ["Sheet1", "Data", "Totals & more", "a<b>c", "Übersicht", "S 2", "R'D", "x"];
 const COLNAMES: [&str; 12] = ["Name", "Amount", "R&D", "a<b", "x>y", "say \"hi\"", "it's", "Ünï", "col 1", "A&amp;B", "100%", "<>&\"'"];
 
+/// legal `<table>` attributes (CT_Table) that carry no geometry; each with one of its legal values
+fn gen_table_attrs(rng: &mut Rng) -> Vec<[String; 2]> {
+    const POOL: [(&str, &[&str]); 18] = [
+        ("totalsRowShown", &["0", "1", "false", "true"]),
+        ("headerRowDxfId", &["0", "3"]),
+        ("dataDxfId", &["1", "7"]),
+        ("totalsRowDxfId", &["2"]),
+        ("headerRowBorderDxfId", &["4"]),
+        ("tableBorderDxfId", &["5"]),
+        ("totalsRowBorderDxfId", &["6"]),
+        ("headerRowCellStyle", &["Heading 1", "R&D <style>"]),
+        ("dataCellStyle", &["Normal"]),
+        ("totalsRowCellStyle", &["Total"]),
+        ("published", &["0", "1"]),
+        ("tableType", &["worksheet", "xml", "queryTable"]),
+        ("insertRowShift", &["0", "1", "true"]),
+        ("comment", &["ref=A1:B2 headerRowCount=0", "x"]),
+        ("connectionId", &["1"]),
+        ("xr:uid", &["{8A3C9F5B-0000-4000-8000-000000000001}"]),
+        ("mc:Ignorable", &["xr xr3"]),
+        ("xr3:ref", &["A1:A2"]),
+    ];
+    if rng.chance(1, 4) {
+        return vec![];
+    }
+    let mut idx: Vec<usize> = (0..POOL.len()).collect();
+    rng.shuffle(&mut idx);
+    let n = rng.range(1, 6) as usize;
+    idx[..n].iter().map(|i| [POOL[*i].0.to_string(), rng.pick(POOL[*i].1).to_string()]).collect()
+}
+
 fn gen_xlsx(rng: &mut Rng) -> XlsxSpec {
     let ns = rng.range(1, 4) as usize;
     let mut names: Vec<&str> = NAMES.to_vec();
@@ -1117,7 +1235,7 @@ fn gen_xlsx(rng: &mut Rng) -> XlsxSpec {
                 } else {
                     None
                 };
-                let f = if rng.chance(1, 2) { 0 } else { rng.below(16) as u8 };
+                let f = if rng.chance(1, 2) { 0 } else { rng.below(32) as u8 };
                 Merge { r: gen_rect(rng), f, raw }
             })
             .collect();
@@ -1126,6 +1244,11 @@ fn gen_xlsx(rng: &mut Rng) -> XlsxSpec {
             cells: cells.into_iter().map(|((r, c), v)| [r, c, v]).collect(),
             merges,
             mc_empty: rng.chance(1, 10),
+            cnt: match rng.below(6) {
+                0 => Some(-1),
+                1 => Some(*rng.pick(&[0i64, 1, 2, 7, 4_294_967_295])),
+                _ => None,
+            },
         });
     }
     let nt = if rng.chance(1, 4) { 0 } else { rng.range(1, 4) } as usize;
@@ -1165,6 +1288,10 @@ fn gen_xlsx(rng: &mut Rng) -> XlsxSpec {
             ins: if rng.chance(1, 20) { Some(rng.pick(&["0", "1", "0", "false", "true"]).to_string()) } else { None },
             cols,
             abs: rng.chance(1, 4),
+            x: gen_table_attrs(rng),
+            alt: if rng.chance(1, 4) { Some(rng.pick(&["Table_legacy", "Other", "t", "Tabelle1"]).to_string()) } else { None },
+            ord: if rng.chance(1, 2) { rng.next() | 1 } else { 0 },
+            kids: if rng.chance(1, 3) { 0 } else { rng.below(64) as u8 },
         });
     }
     XlsxSpec { layout: if rng.chance(1, 8) { 0 } else { rng.next() | 1 }, sheets, tables }
@@ -1241,6 +1368,11 @@ fn xlsx_candidates(s: &XlsxSpec) -> Vec<XlsxSpec> {
         }
     }
     for i in 0..s.sheets.len() {
+        if s.sheets[i].cnt.is_some() {
+            let mut c = s.clone();
+            c.sheets[i].cnt = None;
+            v.push(c);
+        }
         if !s.sheets[i].merges.is_empty() {
             let mut c = s.clone();
             c.sheets[i].merges.clear();
@@ -1273,6 +1405,24 @@ fn xlsx_candidates(s: &XlsxSpec) -> Vec<XlsxSpec> {
             let mut c = s.clone();
             c.tables[k].abs = false;
             v.push(c);
+        }
+        let t = &s.tables[k];
+        if t.kids != 0 || t.ord != 0 || t.alt.is_some() {
+            let mut c = s.clone();
+            c.tables[k].kids = 0;
+            c.tables[k].ord = 0;
+            c.tables[k].alt = None;
+            v.push(c);
+        }
+        if !t.x.is_empty() {
+            let mut c = s.clone();
+            c.tables[k].x.clear();
+            v.push(c);
+            for j in 0..t.x.len() {
+                let mut c = s.clone();
+                c.tables[k].x.remove(j);
+                v.push(c);
+            }
         }
     }
     if s.layout != 0 {
@@ -1365,6 +1515,10 @@ fn corpus() -> Vec<String> {
         r#"xlsx {"layout":0,"sheets":[{"name":"Sheet1","cells":[[0,0,1],[1,0,2]],"merges":[]}],"tables":[{"sheet":0,"name":"Table1","r":[0,0,1,0],"hdr":1,"tot":null,"cols":["a"],"abs":true}]}"#.into(),
         // insertRow="false"
         r#"xlsx {"layout":0,"sheets":[{"name":"Sheet1","cells":[[0,0,1],[1,0,2],[2,0,3]],"merges":[]}],"tables":[{"sheet":0,"name":"Table1","r":[0,0,2,0],"hdr":1,"tot":null,"ins":"false","cols":["a"],"abs":false}]}"#.into(),
+        // seeded change C17-m1: totalsRowShown (a UI history flag) must not decide whether the totals row is data
+        r#"xlsx {"layout":0,"sheets":[{"name":"Sheet1","cells":[[1,1,1],[2,1,2],[3,1,3],[4,1,4]],"merges":[]}],"tables":[{"sheet":0,"name":"Table1","r":[1,1,4,1],"hdr":0,"tot":1,"cols":["a"],"abs":false,"x":[["totalsRowShown","0"]]}]}"#.into(),
+        // every inert attribute / child at once, shuffled attribute order, name != displayName, wrong mergeCells count
+        r#"xlsx {"layout":0,"sheets":[{"name":"Sheet1","cells":[[0,0,1],[1,0,2],[2,1,3],[3,0,4]],"merges":[{"r":[5,5,6,6],"f":20},{"r":[7,7,7,7],"f":16}],"cnt":7}],"tables":[{"sheet":0,"name":"Table1","r":[0,0,3,1],"hdr":1,"tot":1,"cols":["a","name"],"abs":false,"x":[["totalsRowShown","false"],["headerRowDxfId","3"],["insertRowShift","1"],["tableType","worksheet"],["published","1"],["xr3:ref","A1:A2"]],"alt":"Other","ord":12345,"kids":61}]}"#.into(),
         // several sheets, regions at the far corner, attribution
         r#"xlsx {"layout":0,"sheets":[{"name":"A","cells":[],"merges":[{"r":[1048575,16383,1048575,16383],"f":0},{"r":[0,0,1048575,16383],"f":0}]},{"name":"B","cells":[[3,3,7]],"merges":[]},{"name":"C","cells":[],"merges":[{"r":[5,26,9,702],"f":3}],"mc_empty":true}],"tables":[]}"#.into(),
         // xls: two records, regions at IV65536
@@ -1395,7 +1549,11 @@ fn main() {
          sheets x 0-30 merged regions anywhere up to XFD1048576, 0-4 tables: inside / overlapping / outside \
          the used range or on an empty sheet, headerRowCount absent/0/1 x totalsRowCount absent/0/1, 1-6 \
          columns with XML-special names, relative and absolute relationship targets, random physical \
-         layout) and xls (1-3 sheets, 0-3 MERGEDCELLS records of 0-1027 regions among the cell records); \
+         layout; inert content that must not influence the result: further legal <table> attributes \
+         (totalsRowShown, *DxfId, *CellStyle, published, tableType, insertRowShift, comment, prefixed \
+         attributes) in shuffled order, name != displayName, autoFilter with filterColumn/sortState refs or \
+         absent, tableColumn attributes and formula children, tableStyleInfo absent, extLst, whitespace; \
+         mergeCells count wrong or missing, extra attributes before/after a mergeCell ref) and xls (1-3 sheets, 0-3 MERGEDCELLS records of 0-1027 regions among the cell records); \
          oracle = the declared regions (count, order, corners, sheet) and for tables name, sheet, columns \
          and the sheet's values over ref minus header/totals rows; no expectation for malformed/reversed \
          refs, tables without a data row or with insertRow; non-trivial = a well-formed reference / a \
